@@ -294,8 +294,12 @@ class MetadataBase(object):
         # still fail here and must not leave a truncated file behind
         parser = self._get_parser()
         self.serialize(parser)
+        # build the complete file content as well: the encoder can still
+        # fail on a value it cannot represent
+        content = six.StringIO()
+        self.build_file(parser, content)
         with open_file_obj(f, "w") as f:
-            self.build_file(parser, f)
+            f.write(content.getvalue())
 
     def dumps(self):
         """
